@@ -28,7 +28,7 @@ func WirePacket(r *rand.Rand, maxOpts int) ([]byte, *ref4.P4) {
 		e.HLen = 6
 	}
 	if r.IntN(6) == 0 { // the (hardware type, address length) pairs that exist, incl. the ones longer than chaddr
-		pr := [][2]byte{{1, 6}, {6, 6}, {27, 8}, {32, 20}, {32, 8}, {24, 8}, {15, 2}, {20, 1}, {1, 20}, {32, 16}, {32, 17}}[r.IntN(11)]
+		pr := [][2]byte{{1, 6}, {6, 6}, {27, 8}, {32, 20}, {32, 8}, {24, 8}, {15, 2}, {20, 1}, {1, 20}, {32, 16}, {32, 17}, {32, 0}, {1, 0}}[r.IntN(13)] // hlen 0: what RFC 4390 has IPoIB clients send
 		e.HType, e.HLen = pr[0], pr[1]
 	}
 	e.Hops = byte(r.UintN(256))
@@ -126,6 +126,10 @@ func WirePacket(r *rand.Rand, maxOpts int) ([]byte, *ref4.P4) {
 		v := Bytes(r, l)
 		if bytes.IndexByte(textCodes, code) >= 0 && r.IntN(3) != 0 {
 			v = Text(r, l)
+		}
+		if code == 61 && r.IntN(3) != 0 && n <= 12 {
+			v = ClientID(r, e.HType, e.CHAddr)
+			l = len(v)
 		}
 		// split into instances
 		if l == 0 {
